@@ -176,3 +176,24 @@ Proof.
     rewrite Hc2'. f_equal. rewrite Proofs.map_cell_comp.
     apply map_cell_ext. intros r Hr. symmetry. apply app_memo_compose. now apply Hrefs.
 Qed.
+
+(* ---- holders frozen before Copy() whose members are accessors over captured state ----
+   1 = a plain root; 2 = frozen holder with a getter and a primitive; 6 = frozen holder with
+   getter and setter; 7 = frozen holder with a setter only; 3, 4 = the accessor functions,
+   closing over the function stash 5 that holds the mutable counter *)
+Definition h_frozen : heap :=
+  [(1, CObj (mkObj None [(10, PData (VRef 2) 2); (11, PData (VRef 6) 2); (12, PData (VRef 7) 2)] 1 true PNone));
+   (2, CObj (mkObj None [(20, PAcc (Some 3) None 2); (21, PData (VPrim 100 1) 2)] 1 false PNone));
+   (3, CObj (mkObj None [] 2 true (PFun 50 (Some 5))));
+   (4, CObj (mkObj None [] 2 true (PFun 51 (Some 5))));
+   (5, CFn None [(30, VPrim 100 0, 4)] None []);
+   (6, CObj (mkObj None [(22, PAcc (Some 3) (Some 4) 0)] 1 false PNone));
+   (7, CObj (mkObj None [(23, PAcc None (Some 4) 0)] 1 false PNone))].
+
+(* what a cloner does that keeps the source's property table for a "constant" holder:
+   the copy of cell l is the original cell, references not renamed *)
+Definition keep_source_cell (h : heap) (s : st) (l : loc) : heap :=
+  match lookup h l with
+  | Some c => update (out s) (app_memo (memo s) l) c
+  | None => out s
+  end.
